@@ -154,6 +154,12 @@ def replay(cases, name, seeds=(None,), render_opts=None, check_ast=True):
                 return res
         so, se, code = sv.run_seed(plain, fname, d)
         exp = sv.expected(outcome, fname, pl.loc)
+        form = sv.stderr_form(se, fname, code)
+        if form:
+            res.update(kind="stderr-form", detail=form,
+                       actual={"stdout": so.decode(errors="replace"),
+                               "stderr": se.decode(errors="replace"), "exit": code})
+            return res
         if not sv.matches(exp, so, se, code):
             res.update(kind="behaviour", expected=sv.show_exp(exp),
                        actual={"stdout": so.decode(errors="replace"),
